@@ -973,6 +973,11 @@ class MultiCall(object):
         del self._job_list[:]
         if not responses:
             responses = []
+        elif isinstance(responses, utils.DictType):
+            # The server answered the whole batch with a single object
+            # (e.g. a parse error): raise the error it describes, if any
+            check_for_errors(responses)
+            responses = [responses]
         return MultiCallIterator(responses)
 
     @property
